@@ -120,6 +120,18 @@ CHECKS = {
         note=TB + "Partial (correspondence only): metadata preservation (__name__, signature, abstractness, "
              "coroutine-ness) is a functools/inspect fact. The single-checker clause is checked, not yet proved.",
         design="DESIGN.md section 6 C14"),
+    "C15": dict(
+        text="Theorems over the expressions translated from /repo on this run: icontract.SLOW is __debug__ and "
+             "ICONTRACT_SLOW non-empty, the four enabled defaults are __debug__, so the flag is the documented one for "
+             "every mode x environment x argument x decorator (C15_slow, C15_default, C15_enabled_flag); a disabled "
+             "decorator - any kind, valid or not, any stack - returns its argument and leaves the world unchanged "
+             "(C15_absent_*); each __call__ starts with the early return and no assert of the library has an effect "
+             "(C15_source_facts, C15_asserts_effect_free). Tie: translator facts + subprocess matrix (3 modes x 5 "
+             "environments x 72 rows, spec_C15 evaluated in Coq on each observation) + generated programs with "
+             "enabled=True rerun under -O and -OO and compared with the normal interpreter.",
+        note=TB + "The second sentence of the property (explicitly enabled contracts are enforced identically under -O) "
+             "is decided by the effect-free-assert fact plus correspondence, not by a theorem about CPython's -O.",
+        design="DESIGN.md section 6 C15"),
     "C16": dict(
         text="Theorems: phase order pre, snapshots, body, post with invariants strictly outside (C16_phase_order, "
              "C16_invariants_outermost); groups tried in order until one holds, each stops at its first falsy "
